@@ -1507,6 +1507,47 @@ def c18h(F, R):
             R.bad("first-non-blank|shape", "UNEXTRACTABLE: format_region no longer looks for the first non-blank character of the line", g["sp"])
 
 
+@rule("C18", "C18.i.what-is-formatted-is-printed", floor=3)
+def c18i(F, R):
+    """in each printer the text produced for a diagnostic is written to the output on the path that produced it: the result of `format_item` / `format_item_compact` / the JSON text flows into a `print!`; a formatter whose result is dropped makes one output channel silent while the others still report"""
+    impls = [i for i in F.impls if (i.get("trait") or "").split("::")[-1] == "ErrorDisplay"]
+    if len(impls) < 2:
+        raise Anchor(f"only {len(impls)} ErrorDisplay impls")
+    n = 0
+    for i in impls:
+        name = short(i["self_ty"])
+        dp = [it["path"] for it in i["items"] if it["name"] == "display_errors"]
+        if not dp:
+            continue
+        g = F.fn(dp[0])
+        body = g["hir"]["value"]
+        prints = [c for c in walk(body, pats=False) if c.get("k") == "Call" and short(callee_of(c) or "") in ("_print", "_eprint", "write_fmt", "write_str")]
+        printed = set()
+        for c in prints:
+            for x in walk(c, pats=False):
+                if x.get("k") == "Path" and x.get("res_kind") == "Local":
+                    printed.add((x["res"], x.get("lid")))
+        for st in walk(body, pats=False):
+            if st.get("k") != "Let" or st["pat"].get("k") != "PBinding" or st.get("init") is None:
+                continue
+            init = st["init"]
+            producers = [m.get("name") or short(callee_of(m) or "") for m in walk(init, pats=False) if m.get("k") in ("MethodCall", "Call")]
+            if not any(p_ in ("format_item", "format_item_compact", "to_string_pretty", "to_string", "format") for p_ in producers):
+                continue
+            if st["pat"]["name"] in ("end_str",):
+                continue
+            if not any(p_ in ("format_item", "format_item_compact", "to_string_pretty") for p_ in producers):
+                continue
+            n += 1
+            key = f"{name}|{st['pat']['name']}|{[p_ for p_ in producers if p_ in ('format_item', 'format_item_compact', 'to_string_pretty')][0]}"
+            if (st["pat"]["name"], st["pat"].get("lid")) in printed or (st["pat"].get("lid") is None and any(n_ == st["pat"]["name"] for n_, _ in printed)):
+                R.ok(key, detail="formatted, then printed", where=loc(st))
+            else:
+                R.bad(key, f"{name}::display_errors formats a diagnostic into `{st['pat']['name']}` and never prints it: this output mode shows nothing for diagnostics the other modes report", loc(st))
+    if n < 3:
+        R.bad("coverage", f"only {n} formatted-then-printed values found in the printers (expected the pretty, the compact and the JSON text)", None)
+
+
 @rule("C18", "C18.f.excerpt-gutter-matches-printed-number", floor=2)
 def c18f(F, R):
     """in the pretty excerpt the blank gutter of the marker line is as wide as the line-number gutter above it: its width is computed from the very value that is printed as the line number (same binding) plus the literal characters printed before the number; otherwise the marker slides off the reported columns on lines 10, 100, ..."""
